@@ -101,6 +101,16 @@ func CheckGraph(fg *df.InterProceduralFlowGraph, st *df.AnalyzerState) (viol []G
 		}
 		for instr, cl := range s.CreatedClosures {
 			if cl.ClosureSummary == nil {
+				// every closure-creation node must be registered with the closure's summary as soon as that summary exists
+				if mc, ok := instr.(*ssa.MakeClosure); ok {
+					if fn, ok := mc.Fn.(*ssa.Function); ok {
+						if want := fg.Summaries[fn]; want != nil {
+							evals++
+							add("closure-not-linked", "closure node %s in %s is not linked although a summary of %s exists", cl.LongID(), f.String(),
+								fn.String())
+						}
+					}
+				}
 				continue
 			}
 			links++
@@ -243,9 +253,24 @@ func CanonGraph(fg *df.InterProceduralFlowGraph) string {
 // UserFunctions lists the functions of the main package (and its closures) that have summaries.
 func UserFunctions(l *Loaded, fg *df.InterProceduralFlowGraph) []*ssa.Function {
 	var fs []*ssa.Function
+	seen := map[*ssa.Function]bool{}
+	var addAnon func(f *ssa.Function)
+	addAnon = func(f *ssa.Function) {
+		for _, a := range f.AnonFuncs {
+			if !seen[a] {
+				seen[a] = true
+				fs = append(fs, a) // closures that are never called have no summary yet: building them is a lattice transition too
+			}
+			addAnon(a)
+		}
+	}
 	for f := range fg.Summaries {
 		if f.Package() == l.Main || (f.Parent() != nil && f.Parent().Package() == l.Main) {
-			fs = append(fs, f)
+			if !seen[f] {
+				seen[f] = true
+				fs = append(fs, f)
+			}
+			addAnon(f)
 		}
 	}
 	sort.Slice(fs, func(i, j int) bool { return fs[i].String() < fs[j].String() })
